@@ -56,6 +56,7 @@ func (c17) Plan(tier string, seed int64) []mon.Workload {
 		{Name: "expression-errors", N: int64(len(c17ErrExprs) * len(c17ErrCtx)), Exhaustive: true},
 		{Name: "link-errors", N: b / 3},
 		{Name: "load-faults", N: int64(len(c17LoadFaults) * len(c17LoadCtx)), Exhaustive: true},
+		{Name: "use-chains", N: int64(len(c17ChainFaults) * 3 * len(c17ChainWraps)), Exhaustive: true},
 	}
 }
 
@@ -180,7 +181,8 @@ var c17LoadFaults = []string{
 	"nosuch_function()", "add_key()", "grok(_, \"%{NOSUCH:x}\")", "break", "continue", "cast(x, \"nosuchtype\")", "use(\"missing.p\")", "rename(a)", "x = len(nosuch_function())",
 	"if nosuch_function() {\n}", "x = [1, nosuch_function()]", "add_key(k, nosuch_function())", "for e in nosuch_function() {\n}", "x = 1 + (2 * nosuch_function())",
 }
-var c17LoadCtx = []string{"F\n", "y = 1\nF\nz = 2\n", "# héllo 世界\ny = \"é\"\nF\n", "if true {\n  F\n}\nz = 2\n", "y = 1\nfor e in [1] {\n  if e == 1 {\n    F\n  }\n}\n", "y = 1\n\n\n   F", "a = 1; F\nz = 3\n"}
+var c17LoadCtx = []string{"F\n", "y = 1\nF\nz = 2\n", "# héllo 世界\ny = \"é\"\nF\n", "if true {\n  F\n}\nz = 2\n", "y = 1\nfor e in [1] {\n  if e == 1 {\n    F\n  }\n}\n", "y = 1\n\n\n   F", "a = 1; F\nz = 3\n",
+	"ml = \"\"\"one\ntwo\n\"\"\"\nF\n", "`q\nr` = 1\nml = '''é\n\n世'''; F\nz = 1\n"}
 
 func c17LoadFault(i int64) (src string, from, to int) {
 	ctx := c17LoadCtx[int(i)%len(c17LoadCtx)]
@@ -237,8 +239,104 @@ func (k c17) runLoadFault(c *mon.Ctx, i int64) {
 	}
 }
 
+// use-chains (exhaustive): a run-time fault in a script reached through 1..3
+// use() calls (at top level, in a branch, in a loop), the same loaded set run
+// three times: the error chain of EVERY run is the fault (inside the faulting
+// statement of the innermost script) followed by exactly one entry per use()
+// call site, innermost first, each inside its use() statement - a chain does
+// not remember earlier runs.
+var c17ChainFaults = []string{"boom()", "x = 1 / zero", "replace(message, \"a(b\", \"x\")", "datetime(ts3, \"s\", \"no-such-layout\")",
+	"add_key(k2, replace(message, \"a(b\", \"x\"))", "y = w[5]", "add_key(k2, boom())", "z = mm[\"a\"][\"b\"]"}
+var c17ChainWraps = [][2]string{{"", "\n"}, {"if true {\n  ", "\n}\n"}, {"for e in [1] {\n    ", "\n}\n"}}
+
+func (k c17) runUseChain(c *mon.Ctx, i int64) {
+	wrap := c17ChainWraps[int(i)%len(c17ChainWraps)]
+	i /= int64(len(c17ChainWraps))
+	depth := 1 + int(i%3)
+	fault := c17ChainFaults[int(i)/3]
+	srcs := map[string]string{}
+	type span struct{ from, to int }
+	spans := make([]span, depth+1)
+	name := func(l int) string { return fmt.Sprintf("s%d.p", l) }
+	for l := 0; l < depth; l++ {
+		pre := fmt.Sprintf("# level %d héllo\nadd_key(l%d, 1)\n", l, l) + wrap[0]
+		call := fmt.Sprintf("use(\"%s\")", name(l+1))
+		spans[l] = span{len(pre), len(pre) + len(call)}
+		srcs[name(l)] = pre + call + wrap[1]
+	}
+	pre := "zero = 0\nadd_key(ts3, 1700000000)\nw = [1]\nmm = {\"a\": 1}\n"
+	spans[depth] = span{len(pre), len(pre) + len(fault)}
+	srcs[name(depth)] = pre + fault + "\nadd_key(after, 1)\n"
+	info := map[string]any{"scripts": srcs}
+	loaded, errs := drive.LoadV1(srcs)
+	c.Eval(1)
+	if len(errs) != 0 {
+		c.Violate("valid-set-rejected", fmt.Sprintf("%v\n%s", errs, srcDump(srcs)), info)
+		return
+	}
+	first := ""
+	for run := 0; run < 3; run++ {
+		pt := drive.PointFromModel(ref.NewPoint("m", nil, map[string]any{"message": "msg"}, time.Unix(1700000000, 0)))
+		ro := drive.RunV1(loaded[name(0)], pt, &drive.RunState{Budget: 5000})
+		c.Eval(1)
+		if ro.Panic != nil {
+			c.Violate("run-panic", fmt.Sprintf("%v\n%s", ro.Panic, srcDump(srcs)), info)
+			return
+		}
+		if ro.Err == nil {
+			c.Count("use_chain_fault_did_not_fail", 1)
+			return
+		}
+		c.Nontrivial(fmt.Sprint(fault, depth, wrap[0]))
+		chain := ro.Err.PosChain
+		text := ro.Err.Error()
+		if run == 0 {
+			first = text
+		} else if text != first {
+			c.Violate("error-chain-depends-on-earlier-runs", fmt.Sprintf("run %d of the same loaded scripts reports\n%s\nrun 1 reported\n%s\n%s", run+1, text, first, srcDump(srcs)), info)
+			return
+		}
+		// entries inside the faulting statement, then one per use() level
+		j := 0
+		for j < len(chain) && chain[j].File == name(depth) {
+			if d := drive.CheckPosition(chain[j], name(depth), srcs[name(depth)]); d != "" {
+				c.Violate("error-position-invalid", fmt.Sprintf("entry %d: %s\n%s\n%s", j, d, text, srcDump(srcs)), info)
+				return
+			}
+			if chain[j].Pos < spans[depth].from || chain[j].Pos >= spans[depth].to {
+				c.Violate("error-outside-faulting-statement", fmt.Sprintf("entry %d (offset %d) is outside the faulting statement [%d,%d) of %s\n%s\n%s", j, chain[j].Pos, spans[depth].from, spans[depth].to, name(depth), text, srcDump(srcs)), info)
+				return
+			}
+			j++
+		}
+		if j == 0 {
+			c.Violate("error-chain-wrong", fmt.Sprintf("the chain does not start in the faulting script %s\n%s\n%s", name(depth), text, srcDump(srcs)), info)
+			return
+		}
+		if len(chain)-j != depth {
+			c.Violate("error-chain-wrong", fmt.Sprintf("%d use() levels but %d outer call-site entries\n%s\n%s", depth, len(chain)-j, text, srcDump(srcs)), info)
+			return
+		}
+		for l := depth - 1; l >= 0; l-- {
+			e := chain[j]
+			j++
+			if e.File != name(l) || e.Pos < spans[l].from || e.Pos >= spans[l].to {
+				c.Violate("error-chain-wrong", fmt.Sprintf("the call-site entry for level %d is %s offset %d; the use() call of %s occupies [%d,%d)\n%s\n%s", l, e.File, e.Pos, name(l), spans[l].from, spans[l].to, text, srcDump(srcs)), info)
+				return
+			}
+			if d := drive.CheckPosition(e, name(l), srcs[name(l)]); d != "" {
+				c.Violate("error-position-invalid", fmt.Sprintf("call-site entry of level %d: %s\n%s", l, d, text), info)
+				return
+			}
+		}
+		c.Count("use_chains_checked", 1)
+	}
+}
+
 func (k c17) Run(c *mon.Ctx, workload string, i int64) {
 	switch workload {
+	case "use-chains":
+		k.runUseChain(c, i)
 	case "load-faults":
 		k.runLoadFault(c, i)
 	case "tree-positions":
